@@ -256,6 +256,8 @@ def call_method(it, obj, name, args, kwargs):
         return _list_method(it, obj, name, args, kwargs)
     if isinstance(obj, MapBox):
         return _map_method(it, obj, name, args, kwargs)
+    if isinstance(obj, ModelValue) and hasattr(obj, 'call_method'):
+        return obj.call_method(it, name, args, kwargs)
     if isinstance(obj, IdSet):
         if name == 'add':
             if not any(y is args[0] for y in obj.items):
